@@ -123,7 +123,9 @@ Record blk_arr := { ba_num : Z; ba_m : Z; ba_szx : Z; ba_size : option Z; ba_dat
 
 (* lg_srcv / lg_crcv as far as reassembly goes *)
 (* br_nomore = lg_srcv->no_more_seen: the final block (M = 0) has been seen (server only) *)
-Record blk_rcv := { br_rec : blk_ranges; br_total : Z; br_body : option bytes; br_nomore : bool }.
+(* br_szx = lg_srcv->szx: the unit in which the server counts received blocks *)
+Record blk_rcv := { br_rec : blk_ranges; br_total : Z; br_body : option bytes; br_nomore : bool;
+                    br_szx : Z }.
 
 Inductive blk_out :=
 | BoContinue                  (* 2.31 / empty ACK / next block requested: nothing delivered *)
@@ -134,32 +136,52 @@ Inductive blk_out :=
 
 Definition blk_opt_z (o : option Z) : Z := match o with Some z => z | None => 0 end.
 
+(* the "while (offset < saved_offset + length)" loop of the reassembly functions: the blocks
+   n, n+1, ..., n+cnt-1 covered by one payload; (ranges, update_data) or None = refusal *)
+Fixpoint blk_update_many (r : blk_ranges) (n : Z) (cnt : nat) : option (blk_ranges * bool) :=
+  match cnt with
+  | O => Some (r, false)
+  | S c =>
+      if blk_check_received r n then blk_update_many r (n + 1) c
+      else match blk_update r n with
+           | None => None
+           | Some r' => match blk_update_many r' (n + 1) c with
+                        | None => None
+                        | Some (r'', _) => Some (r'', true)
+                        end
+           end
+  end.
+
+(* lg_srcv->szx at creation: a first block (NUM 0) larger than the configured maximum block
+   size (COAP_BLOCK_MAX_SIZE_GET, 0 = not configured) is counted in the smaller unit *)
+Definition blk_srv_init_szx (maxszx : Z) (a : blk_arr) : Z :=
+  if (ba_num a =? 0) && negb (maxszx =? 0) && (maxszx <? ba_szx a) then maxszx else ba_szx a.
+
 (* coap_handle_request_put_block, Block1, session->block_mode has COAP_BLOCK_SINGLE_BODY,
    no BERT/Q-Block1, one resource and Request-Tag (the lg_srcv lookup found [st] or nothing),
-   same Content-Format.  Result: lg_srcv afterwards (None = none / freed) and the outcome. *)
-Definition blk_srv_step (junk : Z -> Z) (st : option blk_rcv) (a : blk_arr)
+   same Content-Format; as repaired by /repo commits 06a7cfe (no_more_seen) and e2e5ed9 (a
+   payload larger than lg_srcv->szx is recorded as the blocks of that size it covers; block
+   numbers below 2^20, i.e. no wrap of the 20-bit field).
+   Result: lg_srcv afterwards (None = none / freed) and the outcome. *)
+Definition blk_srv_step (junk : Z -> Z) (maxszx : Z) (st : option blk_rcv) (a : blk_arr)
   : option blk_rcv * blk_out :=
-  let chunk := blk_chunk (ba_szx a) in
+  let chunk_a := blk_chunk (ba_szx a) in
   if (ba_num a =? 0) && (ba_m a =? 0) then (st, BoPass) else
-  let data := if chunk <? len (ba_data a) then take chunk (ba_data a) else ba_data a in
-  if (len (ba_data a) <=? chunk) && (ba_m a =? 1) && negb (len (ba_data a) =? chunk)
+  let data := if chunk_a <? len (ba_data a) then take chunk_a (ba_data a) else ba_data a in
+  if (len (ba_data a) <=? chunk_a) && (ba_m a =? 1) && negb (len (ba_data a) =? chunk_a)
   then (st, BoReject) else
-  let offset := ba_num a * chunk in
+  let offset := ba_num a * chunk_a in
   let s0 := match st with
             | Some s => s
             | None => {| br_rec := []; br_total := blk_opt_z (ba_size a); br_body := None;
-                        br_nomore := false |}
+                        br_nomore := false; br_szx := blk_srv_init_szx maxszx a |}
             end in
-  (* while (offset < saved_offset + length): exactly one iteration when length > 0 *)
-  let upd :=
-    if 0 <? len data then
-      if blk_check_received (br_rec s0) (ba_num a) then Some (br_rec s0, false)
-      else match blk_update (br_rec s0) (ba_num a) with
-           | Some r' => Some (r', true)
-           | None => None
-           end
-    else Some (br_rec s0, false) in
-  match upd with
+  (* unit and first block number in that unit *)
+  let u := if br_szx s0 <? ba_szx a then br_szx s0 else ba_szx a in
+  let n0 := if br_szx s0 <? ba_szx a then ba_num a * 2 ^ (ba_szx a - br_szx s0) else ba_num a in
+  let chunk := blk_chunk u in
+  let cnt := Z.to_nat ((len data + chunk - 1) / chunk) in
+  match blk_update_many (br_rec s0) n0 cnt with
   | None => (None, BoFail)                                      (* 4.08, goto free_lg_srcv *)
   | Some (r', update_data) =>
       let total' := if update_data && (br_total s0 <? offset + len data)
@@ -174,7 +196,8 @@ Definition blk_srv_step (junk : Z -> Z) (st : option blk_rcv) (a : blk_arr)
         (* give_app_data; the lg_srcv is released after the handler ran *)
         (None, BoDeliver (match body' with Some b => take total' b | None => [] end))
       else (Some {| br_rec := r'; br_total := total'; br_body := body';
-                    br_nomore := if ba_m a =? 1 then br_nomore s0 else true |}, BoContinue)
+                    br_nomore := if ba_m a =? 1 then br_nomore s0 else true;
+                    br_szx := br_szx s0 |}, BoContinue)
   end.
 
 (* coap_handle_response_get_block, Block2, COAP_BLOCK_SINGLE_BODY, no BERT/Q-Block2, the
@@ -193,7 +216,8 @@ Definition blk_cli_step (junk : Z -> Z) (st : option blk_rcv) (a : blk_arr)
                else s in
   let s0 := match st with
             | Some s => s
-            | None => {| br_rec := []; br_total := size2; br_body := None; br_nomore := false |}
+            | None => {| br_rec := []; br_total := size2; br_body := None; br_nomore := false;
+                        br_szx := ba_szx a |}
             end in
   let total' := if br_total s0 <? size2 then size2 else br_total s0 in
   let upd :=
@@ -206,16 +230,17 @@ Definition blk_cli_step (junk : Z -> Z) (st : option blk_rcv) (a : blk_arr)
     else Some (br_rec s0, false) in
   match upd with
   | None => (* fail_resp: the lg_crcv stays (cached for a second), nothing was stored *)
-      (Some {| br_rec := br_rec s0; br_total := total'; br_body := br_body s0; br_nomore := false |},
-       BoFail)
+      (Some {| br_rec := br_rec s0; br_total := total'; br_body := br_body s0; br_nomore := false;
+               br_szx := br_szx s0 |}, BoFail)
   | Some (r', false) =>
-      (Some {| br_rec := r'; br_total := total'; br_body := br_body s0; br_nomore := false |},
-       BoContinue)
+      (Some {| br_rec := r'; br_total := total'; br_body := br_body s0; br_nomore := false;
+               br_szx := br_szx s0 |}, BoContinue)
   | Some (r', true) =>
       let size2' := if size2 <? offset + len data then offset + len data else size2 in
       let body' := blk_build_body junk (br_body s0) data offset size2' in
       if (ba_m a =? 1) || negb (blk_check_all_in r' ((size2' + chunk - 1) / chunk)) then
-        (Some {| br_rec := r'; br_total := total'; br_body := body'; br_nomore := false |}, BoContinue)
+        (Some {| br_rec := r'; br_total := total'; br_body := body'; br_nomore := false;
+                 br_szx := br_szx s0 |}, BoContinue)
       else
         (None, BoDeliver (match body' with Some b => take (offset + len data) b | None => [] end))
   end.
